@@ -22,6 +22,8 @@ func checkC14(c *Check, a *Anchors) {
 	c14ExitCode(c, a)
 	freshElements(c, a, "defer-element-fresh")
 	resolvesThroughGetTask(c, a, "resolves-through-GetTask")
+	extrasWin(c, a)
+	deferIndexConsistent(c, a)
 	cmdTemplatedWhole(c, a) // a deferred task call sees .EXIT_CODE and the deferring task's variables only if its name and vars are rendered too
 }
 
